@@ -14,7 +14,7 @@ WRAPF  := $(foreach w,$(WRAPS),-Wl,--wrap=$(w))
 
 # in-process properties / properties under the deterministic scheduler (DST)
 PURE   := C17 C19 C18
-DST    := C05 C15 C06 C08 C09 C04 C07
+DST    := C05 C15 C06 C08 C09 C04 C07 C11
 # DST + short-transfer injection on the stream syscalls
 DSTIO  := C01
 ALL    := $(PURE) $(DST) $(DSTIO)
@@ -61,6 +61,17 @@ $(B)/obj/fz_caseio.o: $(V)/engine/caseio.c
 $(B)/bin/fz_%: $(V)/fuzz/fz_%.cc $(B)/obj/fz_caseio.o $(FUZZLIB) $(wildcard $(V)/props/*.hpp)
 	@mkdir -p $(B)/bin
 	$(CXX) $(CXXFLAGS) -fsanitize=fuzzer -o $@ $< $(B)/obj/fz_caseio.o $(FUZZLIB) -lpthread
+
+# fuzz targets that need the deterministic scheduler and the raw peer
+FZDST := $(B)/obj/fz_vsched.o $(B)/obj/fz_nngh.o $(B)/obj/fz_rawpeer.o
+$(B)/obj/fz_%.o: $(V)/engine/%.c $(FUZZLIB)
+	@mkdir -p $(B)/obj
+	$(CC) $(CFLAGS) $(shell cat $(B)/fuzz/nng_defs.txt) -c $< -o $@
+$(B)/bin/fz_session: $(V)/fuzz/fz_session.cc $(B)/obj/fz_caseio.o $(FZDST) $(FUZZLIB) $(wildcard $(V)/props/*.hpp)
+	@mkdir -p $(B)/bin
+	$(CXX) $(CXXFLAGS) -fsanitize=fuzzer -o $@ $< $(B)/obj/fz_caseio.o $(FZDST) $(WRAPF) $(FUZZLIB) -lpthread
+$(FUZZLIB): FORCE
+	@$(V)/build.sh fuzz
 
 -include $(wildcard $(B)/obj/*.d)
 .SECONDARY:
